@@ -18,6 +18,7 @@ import (
 	"io"
 	"os"
 	"path/filepath"
+	"reflect"
 	"sort"
 	"strconv"
 	"strings"
@@ -596,48 +597,11 @@ func vfHashJSON(v any) uint64 {
 }
 
 // vfMemKey hashes the shared in-memory state of package snaps (registries,
-// counters, skip list).
+// counters, skip list) by reflection over the whole objects, so that state a
+// changed /repo adds to them is part of the key as well.
 func vfMemKey() uint64 {
-	h := fnv.New64a()
-	put := func(s string) { h.Write([]byte(s)); h.Write([]byte{0}) }
-	dump2 := func(m map[string]map[string]int) {
-		var ks []string
-		for f, t := range m {
-			for n, v := range t {
-				ks = append(ks, fmt.Sprintf("%s|%s|%d", f, n, v))
-			}
-		}
-		sort.Strings(ks)
-		for _, k := range ks {
-			put(k)
-		}
-	}
-	dump1 := func(m map[string]int) {
-		var ks []string
-		for f, v := range m {
-			ks = append(ks, fmt.Sprintf("%s|%d", f, v))
-		}
-		sort.Strings(ks)
-		for _, k := range ks {
-			put(k)
-		}
-	}
-	dump2(testsRegistry.running)
-	put("#")
-	dump2(testsRegistry.cleanup)
-	put("#")
-	dump1(standaloneTestsRegistry.running)
-	put("#")
-	dump1(standaloneTestsRegistry.cleanup)
-	put("#")
-	for i := uint8(0); i < 8; i++ {
-		put(fmt.Sprint(testEvents.items[i]))
-	}
-	put("#")
-	for _, s := range skippedTests.values {
-		put(s)
-	}
-	return h.Sum64()
+	return vfHash(vfDump(reflect.ValueOf(testsRegistry)), vfDump(reflect.ValueOf(standaloneTestsRegistry)),
+		vfDump(reflect.ValueOf(testEvents)), vfDump(reflect.ValueOf(skippedTests)))
 }
 
 // vfWorldKey is canon(world) of DESIGN §5.1.
